@@ -30,6 +30,9 @@ CLAIMED = {
     'C04': ('4 C04', 'TLC model checking of the calendar arithmetic (MC_Civil, all 146 097 days) and of the spelling laws Denote/Spell, dialect rule, ymd and overflow (MC_Dates) + TLC-printed spelling classes with expected instants replayed into dt/ymd in every rendering (S2C) + recorded dt/ymd/dt2str outcomes for thousands of days x 45 spelling classes x renderings and the overflow grid validated day by day by the TLA+ trace specification Trace_Dt',
             'What every spelling form denotes is defined in TLA+ on top of an independently model-checked civil calendar; every recorded call of the real dt is judged against it, including cross-dialect rejection and month/day overflow.',
             'Trusted: TLC, the rendering of forms into concrete arguments in props/c04.py, run-length packing of identical outcomes. Times of day are sampled. Relative spellings, time zones and 2-digit years are excluded.'),
+    'C18': ('4 C18', 'TLC model checking of argument binding, the wrapper heap (Wrap/Call/CallCached session machine with a pointer-heap mechanism model refining the law) and the memo machine (MC_Decorators) + every TLC-printed binding case, wrap history and memo call sequence replayed on real decorators with == (S2C) + random binding observations, mixed wrap/call histories and memo sequences folded by the TLA+ trace specification Trace_Decorators (C2S)',
+            "Python's binding rules, the normal form of wrapper chains, 'existing objects never change' (action property OnlyNewObject), fallback-iff-raises, exactly-undeclared keywords dropped and once-per-key evaluation are stated in TLA+; older objects are called again after newer ones were built, in every history TLC explores (<= 4-5 wraps of 7 kinds).",
+            'Trusted: TLC, exec-generated base functions returning their bindings, the projection of wrapper chains in props/c18.py. Two recorded known findings (memo carried as a wrapper parameter; list = tuple cache keys). try_nan/true/false/list, keyword-only parameters excluded.'),
 }
 PENDING_REASON = 'check not built yet in this round (planned, see DESIGN.md section 4); not claimed until its specification and conformance harness exist'
 
